@@ -172,7 +172,7 @@ Proof.
     + split; [eapply idx_h_sess_start; eauto; apply Hi0|eapply idx_node_keeps; [eapply h_sess_start_keeps; exact H|reflexivity|exact Hn0]].
     + split; [eapply idx_h_sess_update; eauto; apply Hi0|eapply idx_node_keeps; [eapply h_sess_update_keeps; exact H|reflexivity|exact Hn0]].
     + split; [eapply idx_h_sess_end; eauto; apply Hi0|eapply idx_node_keeps; [eapply h_sess_end_keeps; exact H|reflexivity|exact Hn0]].
-  - intros [= <-].
+  - destruct (forallb pchange_valid _); [|discriminate]. intros [= <-].
     apply (fold_left_inv (fun y => idx_sess y /\ idx_node y)).
     + intros y c [A B]. pose proof (apply_pchange_keeps y c). split; [eapply idx_sess_keeps|eapply idx_node_keeps]; eauto.
     + split; [eapply (idx_sess_frame s)|eapply (idx_node_frame s)]; eauto.
